@@ -32,6 +32,24 @@ def invariant_loop_guards(rep: Report, f, cfg, rule: str, after: CFGNode, before
     self._se.evaluate(si, <state_var>) and raises (or records) on failure."""
     loops = [n for n in cfg.nodes if n.kind == "for" and norm(n.owner.iter) == "self._state_invariants"]
     loops = [l for l in loops if feasible_path(cfg, after, l, correlated=False) is not None]
+    # the same check written as `if not all(self._se.evaluate(si, <state>)… for si in self._state_invariants): raise`
+    alls = []
+    for t in cfg.nodes:
+        if t.kind != "test" or t.ast is None:
+            continue
+        neg, e = False, t.ast
+        while isinstance(e, ast.UnaryOp) and isinstance(e.op, ast.Not):
+            neg, e = not neg, e.operand
+        if isinstance(e, ast.Call) and call_name(e) == "all" and len(e.args) == 1 and isinstance(e.args[0], (ast.GeneratorExp, ast.ListComp)) and len(e.args[0].generators) == 1 and norm(e.args[0].generators[0].iter) == "self._state_invariants":
+            g = e.args[0].generators[0]
+            evs = [c for c in ast.walk(e.args[0].elt) if isinstance(c, ast.Call) and call_name(c) == "evaluate" and len(c.args) >= 2 and norm(c.args[0]) == norm(g.target) and norm(c.args[1]) == state_var]
+            if evs and not g.ifs and raising_branch(cfg, t, True if neg else False) and feasible_path(cfg, after, t, correlated=False) is not None:
+                alls.append(t)
+    if alls and not loops:
+        p = cfg.path_avoiding(after, before, set(alls))
+        rep.check(p is None, rule, f"{f.short}: every path make_child -> return passes the invariants loop", f.loc(before.ast), construct=norm(before.ast), detail="" if p is None else "a path returns the successor without running the invariant checks", function=f.qualname, path=path_text(p) if p else None)
+        rep.ok(rule, f"{f.short}: invariant evaluated in the successor and failure raises", f.loc(alls[0].ast), construct="all(… for … in self._state_invariants)", function=f.qualname)
+        return
     if not loops:
         rep.bad(rule, f"{f.short}: invariants loop after make_child", f.loc(after.ast), construct="no `for si in self._state_invariants` reachable after make_child", detail="the successor state is returned without checking state invariants / bounded types", function=f.qualname)
         return
@@ -169,7 +187,8 @@ def run(idx: Index, rep: Report, tier: str) -> None:
         ok = any("expand_effect()" in ch and "effects" in ch and ch.count("<elem>") >= 2 for ch in chains)
         rep.check(ok, rule3, "apply_unsafe: effect passed to _evaluate_effect comes from expand_effect over the action's effects", au.loc(c), construct=norm(c.args[0]) + " <- " + "; ".join(sorted(".".join(ch) for ch in chains if "effects" in ch)[:3]), detail="" if ok else "effects are evaluated without expanding forall effects over the problem's objects", function=au.qualname)
     for n, c in cfg_nodes_with_call(cfg, "expand_effect"):
-        ok = c.args and "self._problem" in norm(c.args[0])
+        # directly, or through a local that holds (a cast of) the problem
+        ok = c.args and ("self._problem" in norm(c.args[0]) or any(ch[:2] == ("self", "_problem") for ch in adu.sources(c.args[0], n)))
         rep.check(bool(ok), rule3, "apply_unsafe: expand_effect ranges over the problem's objects", au.loc(c), construct=norm(c)[:100], function=au.qualname)
     # all effects: the iterable is grounded_action.effects (not only unconditional / conditional ones)
     fors = [n for n in cfg.nodes if n.kind == "for" and norm(n.owner.iter).endswith(".effects")]
